@@ -1,4 +1,5 @@
 import Fdo.Proto.Voucher
+import Fdo.Facts
 /-
 C04 — Ownership vouchers verify iff untampered; only the current owner can extend.
 `H` (hash), `sigOK` (COSE signature of an entry verifies under a key) and `keyOK` (a key
@@ -232,5 +233,12 @@ example :
     let e1 : EntryView := ⟨[], true, [2], -16, [2], -16, [9], [8], [], [6]⟩
     walk H (fun _ _ => true) (fun _ => true) (-16) [9] [3] [0, 0] [e0, e1] = true := by
   decide
+
+/-- **What the source does, in which order** (regenerated call-order facts of `ExtendVoucher`): the current
+owner key is looked up and compared, and the next owner's key kind checked, before the new entry is signed;
+the argument is cloned first. -/
+theorem code_facts :
+    Fdo.Facts.allBefore "ExtendVoucher" ["shallowClone", "OwnerPublicKey", "Equal", "sameKeyTypeAndSize"] "newSignedEntry" = true := by
+  decide +kernel
 
 end Fdo.Props.C04
